@@ -36,6 +36,15 @@ CLAIMED = {
  "C15": dict(technique="TLA+ builder state machine model-checked by TLC over all call sequences; every sequence and every candidate function name replayed through the real builder with probe rules",
    text="TLC checks after every builder call: names pairwise distinct, accepted = exactly the successful calls in order, accepted function names well-formed and not reserved, refusals name the offender; every sequence (and each of 75 candidate function names) is replayed on the real builder, then probe rules show exactly which functions and symbols the built ruleset holds.",
    ref="6 C15", note="Trusted: WellFormed over the modelled code-point table (XID classes written out for the modelled alphabet) and the reserved-word list in RuleSet.tla."),
+ "C06": dict(technique="TLA+ lexer + grammar + rule-text spec (Lexer/Grammar/RuleText.tla) evaluated by TLC over token- and character-level universes; every text replayed into Expr::parse and Rule::parse under catch_unwind",
+   text="TLC enumerates every viable-prefix token sequence up to length N, every string up to length N over a 30-character alphabet that hits every lexer transition, and the literal families with out-of-range numerals in every numeric position and every escape form; the spec's own lexer and reference parser decide accept/reject for each; every text is given to Expr::parse and Rule::parse under catch_unwind and compared (a panic never matches).",
+   ref="6 C06", note="Trusted: the token and grammar tables transcribed in Lexer.tla / Grammar.tla (DESIGN appendix B). Bounded lengths; longer and random texts only in the random tier."),
+ "C07": dict(technique="TLA+ precedence table as data with a reference parser (Grammar.tla); TLC enumerates every viable-prefix token sequence; accept/reject and tree compared with reval's parser",
+   text="The precedence/associativity table is data in Grammar.tla and drives a reference recursive-descent parser with the correct-prefix property. TLC enumerates every token sequence up to length N over one representative per token class (and the full alphabet at smaller N), accepted and rejected alike; the harness compares accept/reject and the exact tree, so swapping two levels, flipping an associativity, allowing a chain of contains, or changing a spelling's node flips at least one enumerated sequence.",
+   ref="6 C07", note="Trusted: Grammar.tla as the reading of the property's table. N = 5 (quick) / 6 (thorough) tokens."),
+ "C08": dict(technique="TLA+ lexer with literal denotations on exact arithmetic (Lexer.tla) evaluated by TLC over literal families, keyword-collision words and layout interleavings; values compared exactly with reval's parser",
+   text="Literal denotations are computed by the spec on exact arithmetic (positional value in four radices with BigInt; floats as the IEEE-754 nearest double of the decimal rational, ties to even; decimals with scale kept and half-even rounding only beyond 28 digits; the escape table) and compared exactly with what the code parses (floats bitwise, decimals with scale). TLC also enumerates all words up to length N over the keyword-prefix collision alphabet (longest match) and every assignment of 6-10 separators (blanks, tabs, newlines, CRLF, NBSP, comments, nothing) to base token sequences, checking on the spec that layout never changes the tokens.",
+   ref="6 C08", note="Trusted: Lexer.tla token classes and Denote; Float.tla rounding. Families are finite samples of the literal space (boundaries, halfway cases, subnormals)."),
 }
 NA = {
  "C19": "stack exhaustion is a resource limit of the host (frame size x thread stack), not a property of an abstract transition system; a TLA+ model can only restate 'depth is unbounded' (DESIGN section 7)",
